@@ -80,6 +80,11 @@ var regAPIs = []string{"Add", "AddRoute(NewRoute)", "AddNamed", "NewRoute.Attach
 // method (one registration per method: only for single-method routes, else Add); "WithOptions-then-Add" applies the
 // options through WithOptions after New().
 func buildRouterVia(defs []refmodel.RouteDef, via []string, rec *hitRec, opts ...func(*rux.Router)) (r *rux.Router, pv any) {
+	return buildRouterFull(defs, via, false, rec, opts...)
+}
+
+// buildRouterFull: routeMW additionally gives every odd-numbered route a middleware through a later Route.Use
+func buildRouterFull(defs []refmodel.RouteDef, via []string, routeMW bool, rec *hitRec, opts ...func(*rux.Router)) (r *rux.Router, pv any) {
 	pv = try(func() {
 		late := false
 		for _, v := range via {
@@ -142,6 +147,10 @@ func buildRouterVia(defs []refmodel.RouteDef, via []string, rec *hitRec, opts ..
 				rt = r.Add(d.Path, h, d.Methods...)
 			}
 			rt.Opts = map[string]any{"i": i}
+			if routeMW && i%2 == 1 {
+				// route-level middleware attached after registration (its effect shows in the body)
+				rt.Use(func(c *rux.Context) { c.WriteString(fmt.Sprintf("mw%d;", i)) })
+			}
 		}
 	})
 	return
